@@ -13,7 +13,7 @@ RULE = ("dates: all month ends, days 28..31, 29 Feb of leap / non-leap / century
         "(d/m/y, 'd ay y', 'd ay', every configured month name) in tr; impossible triples (day 0, 29..32, month 0 / 13) must not be dates; "
         "offsets N in {0,1,6,7,27..32,59..61,364..367,10^4, random} x {day, week, month, year} x {+,-} against Python's datetime (independent "
         "calendar); all pairs for 'to' in both orders; today / tomorrow / yesterday against the clock, in both languages; the model's constants "
-        "against the implementation's; non-trivial = month / year rollover, leap day, or an offset of at least one month; distinct = distinct lines")
+        "against the implementation's; dates and date arithmetic shown under default zones on both sides of Greenwich (value and printed form as under UTC); non-trivial = month / year rollover, leap day, or an offset of at least one month; distinct = distinct lines")
 ASSUMPTIONS = ["the run date supplies `now`; the theorems hold for every clock",
                "results whose target day does not exist (31 Jan + 1 month, 29 Feb + 1 year) are not demanded by the property and are skipped"]
 TRUSTED = ["month-name and number lexing (regex layer) is exercised, not modelled", "chrono's NaiveDate = proleptic Gregorian calendar (modelled by SC.Chrono, proved a bijection)"]
@@ -330,6 +330,33 @@ def run(ctx, model_ok):
             if not ok:
                 ctx.oracle_fail({"class": "const-zone", "what": f"under the default zone {z} today / tomorrow / yesterday are {ds}: not consecutive days",
                                  "ops": [{"op": "tz", "v": z}, {"op": "exec", "lang": lang, "text": "today\ntomorrow\nyesterday" if lang == "en" else "bugün\nyarın\ndün"}, {"op": "tz", "v": "UTC"}]})
+    # the shown date under a default zone: a date is a calendar day, the configured zone does not move it (what is printed under any
+    # default zone is what is printed under UTC)
+    shown = []
+    for z in ["EST", "PST", "GMT-5", "GMT-11:30", "GMT-12", "HAST", "CET", "NPT", "GMT+14", "NZST"]:
+        for _ in range(ctx.n(4, 40)):
+            lang = rng.choice(["en", "tr"])
+            y, m, d = rng.choice([this_year, rng.randint(1, 9999), rng.randint(1900, 2100)]), rng.randint(1, 12), rng.choice([1, 28, rng.randint(1, 28)])
+            shown.append((z, lang, rng.choice([f"{d}/{m}/{y}", f"{d}/{m}/{y} + {rng.randint(0, 400)} {'days' if lang == 'en' else 'gün'}",
+                                                 f"{d}/{m}/{y} - {rng.randint(1, 11)} {'months' if lang == 'en' else 'ay'}"])))
+    sops = []
+    for z, lang, t in shown:
+        sops += [{"op": "tz", "v": "UTC"}, {"op": "exec", "lang": lang, "text": t}, {"op": "tz", "v": z}, {"op": "exec", "lang": lang, "text": t}]
+    sops.append({"op": "tz", "v": "UTC"})
+    sres = C.run_impl(sops)
+    for i, (z, lang, t) in enumerate(shown):
+        a, b = sres[4 * i + 1], sres[4 * i + 3]
+        la = a["lines"][0] if a.get("lines") else None
+        lb = b["lines"][0] if b.get("lines") else None
+        va, vb = val(la), val(lb)
+        ctx.seen(("shown", z, lang, t), True)
+        ctx.count("shown-under-zone")
+        if va is None or va.get("t") != "D":
+            ctx.count("shown-under-zone:not-a-date")
+            continue
+        if vb is None or vb.get("t") != "D" or vb["ymd"] != va["ymd"] or lb.get("out") != la.get("out"):
+            ctx.oracle_fail({"class": "shown-date", "what": f"'{t}' is {va['ymd']} shown as {la.get('out')!r} under UTC; under the default zone {z} it is {vb.get('ymd') if vb else vb} shown as {lb.get('out') if lb else None!r}",
+                             "ops": [{"op": "tz", "v": z}, {"op": "exec", "lang": lang, "text": t}, {"op": "tz", "v": "UTC"}]})
     # the model's date constants against the implementation's (tie of SC.Rules.constDate)
     if model_ok:
         req = [f"now\t{res[0]['secs']}"]
